@@ -68,6 +68,15 @@ def run(ctx):
             ok, _ = must_pass(hpub, m.bb, [ins[0].bb])
             ok = ok and guarded_any(hpub, ins[0].bb, [r'^!HashSet::contains\(self\.qos2_incomplete_incoming_publishes, packet@Publish\.0\.packet_id\)$'])
         ctx.ob(ok, 'the surfaced QoS 2 id is recorded in the inbound set on every path after the push', 'record|ExactlyOnce', loc=m.loc())
+        # (added after seed C05-3b) completeness: an id that is not in the set is *always* surfaced - no further condition (e.g. the wire DUP flag) may suppress it
+        NC = r'^!HashSet::contains\(self\.qos2_incomplete_incoming_publishes, packet@Publish\.0\.packet_id\)$'
+        es_ = prims.edge_nodes_matching(hpub, [NC])
+        okc = bool(es_)
+        for e_ in es_:
+            seen_ = hpub.reach([e_], avoid=[m.bb])
+            okc = okc and not any(x in seen_ for x in hpub.exits())
+        extra_ = [g for g in prims.guard_strs_plain(hpub, m.bb) if not re.match(r'^(self\.state is |packet is Publish$|packet@Publish\.0\.qos is |!HashSet::contains\(self\.qos2_incomplete_incoming_publishes)', g)]
+        ctx.ob(okc and not extra_, 'completeness: a QoS 2 publish whose id is not in the inbound set is surfaced on every path, under no further condition (extra guards: %s)' % extra_, 'surface-complete|ExactlyOnce', loc=m.loc())
 
     # ---------------------------------------------------------- R-C05-3
     ctx.rule('R-C05-3', 'T1 who-may-write', 'the inbound QoS 2 set: inserted only in the QoS 2 publish arm, removed only by PUBREL, cleared only when the session is absent and on reset; untouched by connection close')
@@ -156,3 +165,15 @@ def run(ctx):
     ctx.ob(ok and len(sw) == 1, 'dispatch iterates the swapped-out event queue in order (into_iter, no reordering)', 'dispatch-order', loc=dp.loc())
     bc = dp.calls('MqttClientImpl::broadcast_event')
     ctx.ob(len(bc) >= 1 and all(guarded_any(dp, c.bb, [r' is Publish$']) for c in bc), 'each Publish event is broadcast', 'dispatch-publish', loc=dp.loc())
+    # ---- added after seed C05-3a: what the engine surfaced is dispatched to the application whatever the outcome of the call
+    ctx.rule('R-C05-6', 'T3 must-pass-through', 'events the engine has queued while handling received bytes are dispatched to the application on every path, also when handling ended with an error (a PUBLISH in front of a failing packet in the same read is still delivered; its QoS 2 id is already recorded)')
+    hib = ctx.fn('MqttClientImpl::handle_incoming_bytes')
+    hne_ = hib.calls('ProtocolState::handle_network_event')
+    dsp = hib.calls('MqttClientImpl::dispatch_packet_events')
+    ok = len(hne_) == 1 and len(dsp) == 1
+    if ok:
+        seen_ = hib.reach(list(hib.graph()[0][hne_[0].bb]), avoid=[dsp[0].bb])
+        ok = not any(x in seen_ for x in hib.exits())
+    ctx.ob(ok, 'handle_incoming_bytes dispatches the packet events after the engine call on every path (error or not)', 'dispatch|always', loc=hib.loc())
+    rv_ = [show(e) for b, e in prims.ret_variants(hib)]
+    ctx.ob(bool(rv_) and all(x in ('result', 'ProtocolState::handle_network_event(self.protocol_state, context)') or x.startswith('ProtocolState::handle_network_event(') for x in rv_), 'and returns the engine\'s own result (%s)' % rv_, 'dispatch|result', loc=hib.loc())
